@@ -43,6 +43,12 @@ CLAIMED = {
  'C18': dict(
    text="Proof over the reals for all positive scalar inputs and arbitrary tensors: each of the 29 definitional relations named by the property (existence checked against the instantiated AST) equals its textbook formula including the dimensionless constants: 1/2 rho v^2, 1/2 v^2, p + q, sqrt(K/rho) = sqrt(gamma p/rho) = sqrt(gamma R T) (as r >= 0, r^2 = ...), v/a, rho v L/mu, v L/nu, cp mu/k, nu/alpha, cp/cv, cp - cv (extensive and specific), k/(rho cp), mu/rho, 1/f, sym(grad u), sym(grad v), alpha dT, (beta dT/3) I, von Mises, sigma.n, -p I (z3 nlsat on VCs generated from the instantiated bodies).",
    ref="DESIGN.md 5 C18", note="REAL semantics: 'a few ulps' is not machine-checked (bodies have <= ~10 roundings). Formula table transcribed from the property statement (phqv/props/c18.py). Thorough tier repeats for float and long double instantiations."),
+ 'C03': dict(
+   text="Proof over the reals for arbitrary positive rescalings s_T..s_J of the seven base units: for every relation discovered from the instantiated classes (~290 relation constructors, ~950 member operators, ~130 member functions, ~80 number*quantity operators) f(S(A) a, S(B) b, ...) == S(R) f(a, b, ...) with S(Q) = prod s_i^dim(Q)[i] and dim(Q) the dimension set the type declares (two symbolic executions of the instantiated body, z3 nlsat); for every * and / operator instance dim(result) == dim(left) +/- dim(right) (exact exponent arithmetic on the extracted RelatedDimensions).",
+   ref="DESIGN.md 5 C03", note="REAL semantics. Scalar inputs are taken positive; angle-valued relations are covered by C11. Thorough tier repeats for float and long double instantiations."),
+ 'C05': dict(
+   text="Proof over the reals for all positive inputs: for every pair of relation constructors discovered from the declared signatures with C from (A, B, ...) and A from (C, B, ...) (~400 pairs incl. one-argument and three-/four-argument families) the composition returns the original A wherever both relations are defined; planar -> 3-D -> planar embeddings of vectors, directions and every planar quantity are the identity and the embedded z component is exactly zero (z3 nlsat on VCs from the instantiated bodies).",
+   ref="DESIGN.md 5 C05", note="REAL semantics: the 'few ulps' bound is not machine-checked (and cannot hold relative to a for additive pairs when a << b). Projections (3-D -> planar) are not required to be invertible. Compositions are required only where no divisor on the way is zero."),
 }
 REASONS = {'C19': "static-initialisation order is a property of the compilers' start-up schedule, not of any function's pre/postcondition; CBMC has no model of C++ dynamic initialisation and contracts cannot express it (DESIGN.md 6)"}
 checks = []
